@@ -7,6 +7,7 @@ CONSTANT StopModes = {FALSE}
 CONSTANT ExitCodes = {0, 1}
 CONSTANT LaunchFail = TRUE
 CONSTANT SecondReaper = FALSE
+CONSTANT WakeupFd = TRUE
 CONSTANT AllowAbort = FALSE
 SPECIFICATION TSpec
 POSTCONDITION Verdicts
